@@ -33,8 +33,18 @@ func (c *c21Run) applyWrite(client int, st c21Step, lastWrite map[string]string)
 		m.deleteBucket(st.Bucket)
 	case "put", "cond-put":
 		content := c21Content(st.Key, client, st.Seq, st.Size)
-		m.set(st.Bucket, st.Key, &mObj{FP: c.stepFP(client, st), Size: len(content)})
+		m.set(st.Bucket, st.Key, &mObj{FP: c.stepFP(client, st), Size: len(content), Bytes: content})
 		lastWrite[st.Bucket+"/"+st.Key] = "put"
+	case "append":
+		o := m.get(st.Bucket, st.Key)
+		if o == nil {
+			return
+		}
+		nb := append(append([]byte{}, o.Bytes...), c21Content(st.Key, client, st.Seq, st.Size)...)
+		fp := o.FP
+		fp.Content = contentFP(nb)
+		m.set(st.Bucket, st.Key, &mObj{FP: fp, Size: len(nb), Bytes: nb})
+		lastWrite[st.Bucket+"/"+st.Key] = "append"
 	case "delete":
 		m.set(st.Bucket, st.Key, nil)
 		lastWrite[st.Bucket+"/"+st.Key] = "delete"
@@ -62,7 +72,7 @@ func (c *c21Run) applyWrite(client int, st c21Step, lastWrite map[string]string)
 				fp.Meta = metaFP(*st.Meta)
 			}
 		}
-		m.set(st.Bucket2, st.Key2, &mObj{FP: fp, Size: src.Size})
+		m.set(st.Bucket2, st.Key2, &mObj{FP: fp, Size: src.Size, Bytes: src.Bytes})
 		lastWrite[st.Bucket2+"/"+st.Key2] = "copy"
 	case "put-tagging", "delete-tagging":
 		o := m.get(st.Bucket, st.Key)
@@ -71,7 +81,7 @@ func (c *c21Run) applyWrite(client int, st c21Step, lastWrite map[string]string)
 		}
 		fp := o.FP
 		fp.Tags = mapFP(st.Tags)
-		m.set(st.Bucket, st.Key, &mObj{FP: fp, Size: o.Size})
+		m.set(st.Bucket, st.Key, &mObj{FP: fp, Size: o.Size, Bytes: o.Bytes})
 		lastWrite[st.Bucket+"/"+st.Key] = st.Op
 	case "versioning":
 		if b := m.bucket(st.Bucket); b != nil {
@@ -114,6 +124,8 @@ func (c *c21Run) expectedWriteOutcome(st c21Step) string {
 		if m.get(st.Bucket, st.Key) == nil {
 			return "no-such-key"
 		}
+		return "ok"
+	case "append":
 		return "ok"
 	case "bad-put":
 		return "bad-digest"
